@@ -43,33 +43,33 @@ Succs(n) == SeqSet(G.succ[n])
 HasEdge(u, v) == v \in Succs(u)
 Edge(u, v) == G.edge[u][v]
 IsCaseEdge(u, v) == Edge(u, v).cs # "-"
-(* the reduced view of _get_reduced_dag: case_branch edges dropped; one-of children dropped unless the dag is a
-   one-of dag and the child has been started (fix aaa3ca8) *)
-VisNode(n, oneof, started) == ~A(n).is_child \/ (oneof /\ n \in started)
-VEdge(u, v, filtered, oneof, started) ==
-    HasEdge(u, v) /\ (~filtered \/ (~IsCaseEdge(u, v) /\ VisNode(u, oneof, started) /\ VisNode(v, oneof, started)))
+(* the reduced view of _get_reduced_dag: case_branch edges dropped; a one-of child is visible only in the one-of
+   subgraph built to run it, i.e. as the destination of a one-of dag (it belongs to no other scope) *)
+VisNode(n, oneof, dest) == ~A(n).is_child \/ (oneof /\ n = dest)
+VEdge(u, v, filtered, oneof, dest) ==
+    HasEdge(u, v) /\ (~filtered \/ (~IsCaseEdge(u, v) /\ VisNode(u, oneof, dest) /\ VisNode(v, oneof, dest)))
 
 RECURSIVE ReachFwd(_, _, _, _, _)
-ReachFwd(front, seen, filtered, oneof, started) ==
-    LET nxt == {v \in Nodes : \E u \in front : VEdge(u, v, filtered, oneof, started)} \ seen
-    IN  IF nxt = {} THEN seen ELSE ReachFwd(nxt, seen \cup nxt, filtered, oneof, started)
+ReachFwd(front, seen, filtered, oneof, dest) ==
+    LET nxt == {v \in Nodes : \E u \in front : VEdge(u, v, filtered, oneof, dest)} \ seen
+    IN  IF nxt = {} THEN seen ELSE ReachFwd(nxt, seen \cup nxt, filtered, oneof, dest)
 RECURSIVE ReachBwd(_, _, _, _, _)
-ReachBwd(front, seen, filtered, oneof, started) ==
-    LET nxt == {u \in Nodes : \E v \in front : VEdge(u, v, filtered, oneof, started)} \ seen
-    IN  IF nxt = {} THEN seen ELSE ReachBwd(nxt, seen \cup nxt, filtered, oneof, started)
+ReachBwd(front, seen, filtered, oneof, dest) ==
+    LET nxt == {u \in Nodes : \E v \in front : VEdge(u, v, filtered, oneof, dest)} \ seen
+    IN  IF nxt = {} THEN seen ELSE ReachBwd(nxt, seen \cup nxt, filtered, oneof, dest)
 
 (* get_connected_subgraph: the nodes on simple paths src -> dst (in a DAG: reachable from src and reaching dst) *)
-Between(src, dst, filtered, oneof, started) ==
+Between(src, dst, filtered, oneof) ==
     IF src = dst THEN {src}
-    ELSE LET f == ReachFwd({src}, {src}, filtered, oneof, started)
-             b == ReachBwd({dst}, {dst}, filtered, oneof, started)
+    ELSE LET f == ReachFwd({src}, {src}, filtered, oneof, dst)
+             b == ReachBwd({dst}, {dst}, filtered, oneof, dst)
          IN  IF dst \in f THEN f \cap b ELSE {}
 
-(* a dag object: [nodes, src, dest, oneof, nested, rec, filtered, started (snapshot used by the view)] *)
-MkDag(src, dst, oneof, nested, rec, filtered, started) ==
-    [nodes |-> Between(src, dst, filtered, oneof, started), src |-> src, dest |-> dst,
-     oneof |-> oneof, nested |-> nested, rec |-> rec, filtered |-> filtered, started |-> started]
-DEdge(D, u, v) == u \in D.nodes /\ v \in D.nodes /\ VEdge(u, v, D.filtered, D.oneof, D.started)
+(* a dag object *)
+MkDag(src, dst, oneof, nested, rec, filtered) ==
+    [nodes |-> Between(src, dst, filtered, oneof), src |-> src, dest |-> dst,
+     oneof |-> oneof, nested |-> nested, rec |-> rec, filtered |-> filtered]
+DEdge(D, u, v) == u \in D.nodes /\ v \in D.nodes /\ VEdge(u, v, D.filtered, D.oneof, D.dest)
 DPreds(D, n) == {u \in D.nodes : DEdge(D, u, n)}
 
 (* nx.topological_sort of a view = Kahn generations; order inside a generation as networkx produces it *)
@@ -131,7 +131,7 @@ PredErr(S, D, n) == {p \in Preds(S, D, n) : HasRes(S, p) /\ IsErr(S.res[p])}
 RECURSIVE SubNodes(_, _, _)
 SubNodes(S, nodes, depth) ==
     IF depth = 0 THEN nodes
-    ELSE nodes \cup UNION {SubNodes(S, Between(G.input, SwitchCase(S, n), TRUE, FALSE, S.started), depth - 1)
+    ELSE nodes \cup UNION {SubNodes(S, Between(G.input, SwitchCase(S, n), TRUE, FALSE), depth - 1)
                            : n \in {m \in nodes : A(m).is_switch /\ SwitchCase(S, m) # "-"}}
 SubErr(S, D) == \E n \in SubNodes(S, D.nodes, 3) : HasRes(S, n) /\ IsErr(S.res[n])
 
@@ -369,9 +369,8 @@ OneofLoop(S, t) ==
                                t, <<"none">>), t)
              ELSE Raise(Notify(S, "run"), t, <<"err", <<h, 0, "oneof_noresult">>>>)
         ELSE LET c == cands[f.idx]
-                 started == S.started \cup {c}
-                 od == MkDag(G.input, c, TRUE, TRUE, FALSE, TRUE, started)
-                 S1 == NewDag([S EXCEPT !.started = started], od)
+                 od == MkDag(G.input, c, TRUE, TRUE, FALSE, TRUE)
+                 S1 == NewDag(S, od)
                  odi == Len(S1.dags)
                  S2 == Spawn(S1, "oneofdag:" \o c, [fn |-> "dag", pc |-> "d0", dag |-> odi, order |-> <<>>, i |-> 1, locals |-> <<>>])
              IN  Exec(SetTop(S2, t, [f EXCEPT !.od = odi, !.pc = "o1"]), t)
@@ -401,7 +400,7 @@ Exec(S, t) ==
     CASE f.fn = "run" ->
            (CASE f.pc = "r0" ->
                    (* create the task of the main dag, then wait on the 'run' condition *)
-                   LET D == MkDag(G.input, G.output, FALSE, FALSE, FALSE, TRUE, S.started)
+                   LET D == MkDag(G.input, G.output, FALSE, FALSE, FALSE, TRUE)
                        S1 == NewDag(S, D)
                        S2 == Spawn(S1, "run", [fn |-> "dag", pc |-> "d0", dag |-> Len(S1.dags), order |-> <<>>, i |-> 1, locals |-> <<>>])
                    IN  Exec(SetPc(S2, t, "r1"), t)
@@ -441,9 +440,8 @@ Exec(S, t) ==
                    IN  IF cases = {}
                        THEN Raise(Notify(S, "run"), t, <<"err", <<sw, 0, "unknown_label">>>>)
                        ELSE LET c == CHOOSE p \in cases : TRUE
-                                started == IF D.oneof THEN S.started \cup {c} ELSE S.started
-                                S1 == [S EXCEPT !.sw[sw] = c, !.started = started]
-                            IN  Exec(CallDag(SetPc(S1, t, "s1"), t, MkDag(G.input, c, D.oneof, FALSE, FALSE, TRUE, started)), t)
+                                S1 == [S EXCEPT !.sw[sw] = c]
+                            IN  Exec(CallDag(SetPc(S1, t, "s1"), t, MkDag(G.input, c, D.oneof, FALSE, FALSE, TRUE)), t)
               [] f.pc = "s1" -> Continue(Ret(NotifyDesc(S, f.n), t, <<"none">>), t))
       [] f.fn = "oneof" ->
            (CASE f.pc = "o0" -> OneofLoop(S, t)
@@ -460,7 +458,7 @@ Exec(S, t) ==
                    LET n == f.n
                        start == A(n).start
                    IN  IF <<start, n>> \in S.active THEN Continue(Ret(S, t, <<"none">>), t)
-                       ELSE LET sub == MkDag(start, n, S.dags[f.dag].oneof, FALSE, TRUE, FALSE, S.started)
+                       ELSE LET sub == MkDag(start, n, S.dags[f.dag].oneof, FALSE, TRUE, FALSE)
                                 S1 == NewDag([S EXCEPT !.active = @ \cup {<<start, n>>}], sub)
                             IN  RecLoop(SetTop(S1, t, [f EXCEPT !.sub = Len(S1.dags), !.pc = "q1"]), t)
               [] f.pc = "q1" -> RecLoop(S, t)
@@ -499,7 +497,7 @@ Resume(S, t) ==
 Init ==
     /\ act = <<"init">>
     /\ st = [res |-> [n \in Nodes |-> Absent], hid |-> {}, proc |-> {}, hidp |-> {}, sw |-> [n \in Nodes |-> "-"],
-          active |-> {}, started |-> {}, addl |-> [n \in Nodes |-> <<"-">>],
+          active |-> {}, addl |-> [n \in Nodes |-> <<"-">>],
           conds |-> [c \in Nodes \cup {"run"} |-> <<>>], ev |-> [n \in Nodes |-> FALSE], evw |-> [n \in Nodes |-> <<>>],
           tasks |-> << [name |-> "main", stack |-> << [fn |-> "run", pc |-> "r0"] >>, status |-> "ready", wait |-> <<"new">>,
                         mustcancel |-> FALSE, ret |-> <<"none">>, exc |-> <<"none">>] >>,
